@@ -174,9 +174,9 @@ CHECKS = {
              'keeps it per state location; a read pushes a copy of its OWN binder\'s value; bind-then-read restores the stack; an up-value read '
              'pushes the captured value with its id. BOUNDED: find over chains of <= 3 scopes (innermost wins, nullptr if none), the shadowing/no-leak '
              'law over two scopes, refd_ids over the 4-name table, the uprefs constructor of a nested block (knows exactly the visible names, none referenced, numbering from 0), '
-             'op_lex_closure with <= 4 up-values (up-value i = i-th value from the top). build_pred (build.cc): the sub-expression of ?( )/!( ) gets a scope of its own nested in the current one. build_exec (build.cc), cases ALT (<= 3 alternatives) and SCOPE (complete): every alternative / the body is built in a NEW scope object whose enclosing scope is the current one; the other lowered cases (IFELSE, CAPTURE, closures, ||, concatenation: C13/C01 jobs) hand the current scope on. READ (complete): a name resolves through the scope chain first and the enclosing block\'s up-value table second, is wired to exactly that binder / up-value id, and is a compile-time error when neither knows it; BIND (complete): binds exactly this name in the CURRENT scope to the new binder; BLOCK (0..3 up-values): the body is built in a fresh root scope with an up-value table made from the visible scope chain and table, own layout and rendezvous slot; one read per up-value is emitted in front of the closure, up-value 0 nearest to it, each resolved like a direct read (scope chain before enclosing up-values).',
+             'op_lex_closure with <= 4 up-values (up-value i = i-th value from the top). build_pred (build.cc): the sub-expression of ?( )/!( ) gets a scope of its own nested in the current one. build_exec (build.cc), cases ALT (<= 3 alternatives) and SCOPE (complete): every alternative / the body is built in a NEW scope object whose enclosing scope is the current one; the other lowered cases (IFELSE, CAPTURE, closures, ||, concatenation: C13/C01 jobs) hand the current scope on. READ (complete): a name resolves through the scope chain first and the enclosing block\'s up-value table second, is wired to exactly that binder / up-value id, and is a compile-time error when neither knows it; BIND (complete): binds exactly this name in the CURRENT scope to the new binder; BLOCK (0..3 up-values): the body is built in a fresh root scope with an up-value table made from the visible scope chain and table, own layout and rendezvous slot; one read per up-value is emitted in front of the closure, up-value 0 nearest to it, each resolved like a direct read (scope chain before enclosing up-values). FORMAT (<= 3 pieces, every mix of literal pieces and directives): every directive is built once, on an origin of its own, in a NEW scope nested in the current one.',
         design_ref='DESIGN.md section 4 C03',
-        note='SLICE: the scope of format directives (FORMAT case of build_exec), names_closure, '
+        note='SLICE: names_closure, '
              'op_apply::substate and the grammar are NOT covered; in the build_exec jobs the recursive call, bindings::find, uprefs::find and refd_ids are assumed contracts (the latter three checked in the bind unit). Trusted: cxx2c lowering; identifiers as atoms and std::map as a total table over '
              '4 atoms; stacks as arrays of value identities; throw/assert as an error flag.',
         technique='CBMC on C lowered from the real C++ per run; loop-free functions over full symbolic model inputs, bounded unwinding for the rest',
